@@ -152,10 +152,11 @@ Record usrv := mkus {
   us_acks_exact : bool;      (* every acknowledge so far confirmed exactly the segments sent *)
   us_ended : bool;           (* the client closed the transfer with the end response *)
   us_bad : Z;
-  us_aborted : bool }.
+  us_aborted : bool;
+  us_sizeind : bool }.       (* the server announces the size in the initiate response (s bit); it need not *)
 
-Definition us_init (value : list Z) (crc_en : bool) : usrv :=
-  mkus 0 value crc_en false 0 0 0 true false 0 false.
+Definition us_init (value : list Z) (crc_en sizeind : bool) : usrv :=
+  mkus 0 value crc_en false 0 0 0 true false 0 false sizeind.
 
 (* the segments of one sub-block starting at byte offset [off]: at most [k] of them *)
 Fixpoint us_segments (k : nat) (seq : Z) (rest : list Z) : list frame :=
@@ -176,11 +177,12 @@ Fixpoint us_segments (k : nat) (seq : Z) (rest : list Z) : list frame :=
 
 Definition us_set (s : usrv) (st : Z) (bad : Z) (ab ended : bool) : usrv :=
   mkus st (us_value s) (us_crc_en s) (us_cc s) (us_blksize s) (us_start s) (us_sent s) (us_acks_exact s)
-       ended bad ab.
+       ended bad ab (us_sizeind s).
 
 Definition us_send_block (s : usrv) (st blksize start : Z) (exact : bool) (bad : Z) : usrv * list frame :=
   let segs := us_segments (Z.to_nat blksize) 1 (skipn (Z.to_nat start) (us_value s)) in
-  (mkus st (us_value s) (us_crc_en s) (us_cc s) blksize start (zlen segs) exact (us_ended s) bad (us_aborted s),
+  (mkus st (us_value s) (us_crc_en s) (us_cc s) blksize start (zlen segs) exact (us_ended s) bad (us_aborted s)
+         (us_sizeind s),
    segs).
 
 Definition ul_srv (s : usrv) (lost : bool) (d : frame) : usrv * list frame :=
@@ -199,8 +201,9 @@ Definition ul_srv (s : usrv) (lost : bool) (d : frame) : usrv * list frame :=
     let okb := (1 <=? blksize) && (blksize <=? 127) in
     let mux := firstn 3 (skipn 1 d) in
     (mkus 1 (us_value s) (us_crc_en s) (Z.testbit d0 2 && us_crc_en s) blksize 0 0 true false
-          (if okb then us_bad s else bad1 (us_bad s) BAD_BLKSIZE) (us_aborted s),
-     [(194 + (if us_crc_en s then 4 else 0)) :: mux ++ le_encode 4 (zlen (us_value s))])
+          (if okb then us_bad s else bad1 (us_bad s) BAD_BLKSIZE) (us_aborted s) (us_sizeind s),
+     [(192 + (if us_sizeind s then 2 else 0) + (if us_crc_en s then 4 else 0)) :: mux ++
+      (if us_sizeind s then le_encode 4 (zlen (us_value s)) else [0; 0; 0; 0])])
   else if (sub =? 3) && (us_state s =? 1) then
     us_send_block s 2 (us_blksize s) 0 (us_acks_exact s) (us_bad s)
   else if (sub =? 2) && (us_state s =? 2) then
@@ -214,7 +217,7 @@ Definition ul_srv (s : usrv) (lost : bool) (d : frame) : usrv * list frame :=
     if zlen (us_value s) <=? pos then
       let n := (7 - zlen (us_value s) mod 7) mod 7 in
       let crc := if us_cc s then crc16 (us_value s) else 0 in
-      (mkus 3 (us_value s) (us_crc_en s) (us_cc s) blksize pos 0 exact (us_ended s) bad (us_aborted s),
+      (mkus 3 (us_value s) (us_crc_en s) (us_cc s) blksize pos 0 exact (us_ended s) bad (us_aborted s) (us_sizeind s),
        [[193 + 4 * n; crc mod 256; crc / 256; 0; 0; 0; 0; 0]])
     else us_send_block s 2 blksize pos exact bad
   else if (sub =? 1) && (us_state s =? 3) then
